@@ -40,6 +40,12 @@ LSIGS: Dict[str, str] = {
     "abs0_close": _c("gtxn 0 CloseRemainderTo", Z, "==", "assert"),
     "own_rekey_lit": _c(f"addr {LIT1}", "txn RekeyTo", "==", "assert"),
     "rel+2_rekey": _c("txn GroupIndex", "int 2", "+", "gtxns RekeyTo", Z, "==", "assert"),
+    # accepting exits inside a subroutine: with the neighbour check before it, and without any check
+    "subexit_rel+1_rekey": P + "callsub f\nerr\nf:\ntxn GroupIndex\nint 1\n+\ngtxns RekeyTo\n" + Z + "\n==\nassert\nint 1\nreturn\n",
+    "subexit_open_rel+1_rekey": P + "txn FirstValid\nint 7\n>\nbz chk\ncallsub f\nchk:\ntxn GroupIndex\nint 1\n+\ngtxns RekeyTo\n" + Z
+    + "\n==\nassert\nint 1\nreturn\nf:\nint 1\nreturn\n",
+    "subexit_open_abs1_rekey": P + "txn FirstValid\nint 7\n>\nbz chk\ncallsub f\nchk:\ngtxn 1 RekeyTo\n" + Z
+    + "\n==\nassert\nint 1\nreturn\nf:\nint 1\nreturn\n",
 }
 APPS: Dict[str, str] = {
     "app_approve": _c("global CreatorAddress", "pop"),
@@ -73,6 +79,7 @@ def items(tier: str) -> List[Any]:  # pylint: disable=too-many-branches
         for a in (None, 0, 1):
             out.append([txn("T1", "appl", app=name, abs_index=a)])
             out.append([txn("T1", "appl", app=name, lsig="own_rekey", abs_index=a)])
+            out.append([txn("T1", "txn", app=name, abs_index=a)])
     out.append([txn("T1", "txn", has_lsig=True)])
     out.append([txn("T1", "pay")])
     # two transactions: T1 carries a checking contract, T2 is the (possibly unchecked) target
@@ -103,7 +110,8 @@ def items(tier: str) -> List[Any]:  # pylint: disable=too-many-branches
                 t1 = txn("T1", "appl", app=app, abs_index=a1)
                 t2 = txn("T2", "appl", app="app_approve", abs_index=a2)
                 t3 = txn("T2", "txn", lsig="approve", abs_index=a2)
-                for tgt in (t2, t3):
+                t4 = txn("T2", "txn", app="app_approve", abs_index=a2)
+                for tgt in (t2, t3, t4):
                     tt1 = dict(t1, rel=dict(t1["rel"]))
                     tt2 = dict(tgt, rel=dict(tgt["rel"]))
                     if r is not None:
